@@ -75,6 +75,10 @@ def gen_cases(rng, tier):
 
 def fail_exc(ctx, e, what="exception"):
   et, fn = exc_sig(e)
+  if isinstance(e, OverflowError):
+    # generator overshoot (an intermediate result beyond double range); the reference pre-screen only samples
+    ctx.count("out_of_domain_overflow")
+    return
   ctx.violation(what, "valid model failed: %s: %s" % (et, e), what=what, exc=et, func=fn)
 
 
@@ -82,6 +86,9 @@ def potable_out(ctx, model, route, rng):
   text = emit.model_text(model, emit.Style(rng))
   if route == "cli":
     res = routes.run_potable(["@IN", "@OUT"], text)
+    if res["rc"] == 1 and "OverflowError" in res["err"]:
+      ctx.count("out_of_domain_overflow")
+      return None
     if res["rc"] != 0 or not res["exists"]:
       ctx.violation("cli_failed", "potable rc=%s stderr=%s" % (res["rc"], res["err"][-500:]), what="cli", exc="rc%s" % res["rc"])
       return None
